@@ -79,13 +79,13 @@ func c08PetsCases(x *core.Ctx, r *core.Rand, n int) {
 }
 
 func c08Run(x *core.Ctx) {
-	ns := 125
+	ns := 300
 	if !x.Quick() {
-		ns = 3125
+		ns = 9000
 	}
 	r := x.Rand(uint64(x.Shard))
 	rn := &model.Renderer{}
-	c08PetsCases(x, r, ns*8)
+	c08PetsCases(x, r, ns*16)
 	for i := 0; i < ns; i++ {
 		sc := c08MakeSchema(r, i)
 		for j := 0; j < 8; j++ {
@@ -123,7 +123,7 @@ func c08Run(x *core.Ctx) {
 			}
 		}
 		// collision documents (two aliases, fragments in exclusive and non-exclusive contexts): the reference decides
-		for j := 0; j < 6; j++ {
+		for j := 0; j < 10; j++ {
 			d := dgen.CollisionDoc(r, sc.mg)
 			if len(d.Defs) == 0 {
 				continue
